@@ -32,6 +32,17 @@ class UserIndexError(UserExc, IndexError):
     """an IndexError raised by a node FUNCTION: the library's own loops catch IndexError for their queue handling"""
 
 
+class UserInterrupt(KeyboardInterrupt):
+    """a KeyboardInterrupt raised inside a node FUNCTION (Ctrl-C while the body executes): the library handles it like a
+    failure of that node.  Only raised when a harness opts in (KI_ENABLED), because drivers must catch BaseException for it"""
+    def __init__(self, tag):
+        super().__init__(f"user interrupt in {tag}")
+        self.tag = tag
+
+
+KI_ENABLED = False      # set by the harnesses whose drivers are prepared for UserInterrupt (reset() leaves it alone)
+
+
 class UserKeyError(UserExc, KeyError):
     """a KeyError raised by a node FUNCTION"""
 
@@ -82,20 +93,32 @@ class ManualExecutor(cf.Executor):
     """submit() only records the job; the driver completes jobs one by one, in the order
     the scenario prescribes, from the parent's poll point (same thread)."""
 
-    def __init__(self):
+    def __init__(self, pending=False):
         self.jobs = []    # (future, fn, args, kwargs)
+        self.pending = pending      # True: a submitted job is PENDING (can still be cancelled) until it is completed
 
     def submit(self, fn, /, *args, **kwargs):
         fut = cf.Future()
-        fut.set_running_or_notify_cancel()
+        if not self.pending:
+            fut.set_running_or_notify_cancel()
         self.jobs.append((fut, fn, args, kwargs))
         return fut
+
+    def cancel(self, fut):
+        """withdraw a pending job: the future's callbacks run with CancelledError"""
+        for j in self.jobs:
+            if j[0] is fut:
+                self.jobs.remove(j)
+                return fut.cancel()
+        return False
 
     def complete(self, fut):
         for j in self.jobs:
             if j[0] is fut:
                 self.jobs.remove(j)
                 _, fn, args, kwargs = j
+                if self.pending and not fut.set_running_or_notify_cancel():
+                    return False
                 try:
                     r = fn(*args, **kwargs)
                 except BaseException as e:      # noqa
@@ -153,7 +176,7 @@ def exc_kind(e: BaseException):
     out = []
     seen = 0
     while e is not None and seen < 6:
-        if isinstance(e, UserExc):
+        if isinstance(e, (UserExc, UserInterrupt)):
             out.append(["UserExc", e.tag])
         else:
             out.append([type(e).__name__])
@@ -171,6 +194,8 @@ def chk(tag, k, args):
         raise UserIndexError(tag)    # ... or a builtin exception type the library's own loops also catch
     if any(a == -9 for a in args):
         raise UserKeyError(tag)
+    if KI_ENABLED and any(a == -6 for a in args):
+        raise UserInterrupt(tag)     # Ctrl-C landing inside the body
     if any(a < 0 for a in args):
         raise UserExc(tag)
     return (k + sum((i + 1) * a for i, a in enumerate(args))) % M
